@@ -251,7 +251,9 @@ HOSTILE = [
 ]
 
 # literal values (accepted by literal_eval) shaped like the markers the Colang 2 state serialiser writes
-MARKER_VALUES = ['{"__type": "ref", "__id": 5}', '{"__type": "set", "value": [1]}', '[{"__type": "ref", "__id": 0}]', '{"__type": "Foo"}', '{"__type": "regex", "value": "("}', '{"__type": "dict", "value": 3}', '{"a": {"__type": "enum", "__class": "x", "value": "y"}}', "{1, 2}", "(1, 2)", '{"k": (1, {2})}']
+MARKER_VALUES = ['{"__type": "ref", "__id": 5}', '{"__type": "set", "value": [1]}', '[{"__type": "ref", "__id": 0}]', '{"__type": "Foo"}', '{"__type": "regex", "value": "("}', '{"__type": "dict", "value": 3}', '{"a": {"__type": "enum", "__class": "x", "value": "y"}}', "{1, 2}", "(1, 2)", '{"k": (1, {2})}',
+                 # numbers a double cannot hold (literal_eval gives inf / -inf), alone and nested
+                 "1e999", "-1e999", "[1, 1e999]", '{"count": 1e400}', "1e999j"]
 # taint expression -> marker that only appears when it was evaluated
 TAINT = [
     ("{{ 7907*7919 }}", "62615533"), ("{{7907*7919}}", "62615533"), ("{{ secret_var }}", "SECRETVAL"), ("$secret_var", "SECRETVAL"), ("{$secret_var}", "SECRETVAL"), ("${secret_var}", "SECRETVAL"),
